@@ -367,3 +367,13 @@ def finish_replay(res: "Result") -> int:
         return EXIT_INCONCLUSIVE
     print(f"{res.prop}: replayed case shows no violation on the current tree")
     return EXIT_HELD
+
+
+def cold(factory) -> bool:  # noqa: ANN001
+    """Empty the memo of kio's reader/writer factory where it has one (functools.cache today).  A factory that memoises differently cannot be
+    emptied from outside: the caller then works on whatever is cached - cold-cache behaviour is observed in fresh interpreters anyway."""
+    clear = getattr(factory, "cache_clear", None)
+    if clear is None:
+        return False
+    clear()
+    return True
